@@ -476,12 +476,16 @@ Theorem c01_ensure_default_failed_index_save : forall d : dstate,
 Proof. exact ensure_default_failed_index_save. Qed.
 Print Assumptions c01_ensure_default_failed_index_save.
 
-(* branch / handoff whose child's creation cannot save the index, on every store: one frame (the child's seq 0) is logged *)
-Theorem c01_lineage_failed_index_save_log : forall (st : state) (c : N) (ar : list N),
-  s_mu st = None ->
-  s_log (exec ([MTarget c; MRead] ++ create_save_failed ar) st) = s_log st ++ [created_frame st ar].
-Proof. exact exec_lineage_save_failed. Qed.
-Print Assumptions c01_lineage_failed_index_save_log.
+(* branch / handoff of ANY thread c whose child's creation cannot save the index, on every store that satisfies the store
+   invariant: one frame (the child's seq 0) is logged, the mutex is free again and the store invariant holds - the retry (a new
+   child: a new id) and everything else that runs next is covered by the schedule theorems *)
+Theorem c01_store_invariant_after_failed_lineage_save : forall (st : state) (c : N) (ar : list N),
+  SInv st -> s_mu st = None ->
+  SInv (exec ([MTarget c; MRead] ++ create_save_failed ar) st)
+  /\ s_log (exec ([MTarget c; MRead] ++ create_save_failed ar) st) = s_log st ++ [created_frame st ar]
+  /\ s_mu (exec ([MTarget c; MRead] ++ create_save_failed ar) st) = None.
+Proof. exact sinv_after_lineage_save_failed. Qed.
+Print Assumptions c01_store_invariant_after_failed_lineage_save.
 
 (* REFUTED for a retry that creates the SAME id again (the seeded change C01-10): for EVERY such state the log is invalid
    from then on *)
